@@ -267,6 +267,13 @@ def identical(a, b, st: St):
     if isinstance(a, (IVal, BVal)) and isinstance(b, (IVal, BVal)):
         return eq(a, b, st)
     if isinstance(a, TupVal) or isinstance(b, TupVal):
+        if a is b:
+            return z3.BoolVal(True)
+        t, o = (a, b) if isinstance(a, TupVal) else (b, a)
+        if t.items and isinstance(o, (Val, IVal, BVal)):
+            # a non-empty tuple display evaluated in this function is a new object: identical to no value that was
+            # obtained otherwise (CPython shares only the empty tuple)
+            return z3.BoolVal(False)
         raise Unsupported("`is` on tuple literal")
     return to_v(a, st) == to_v(b, st)
 
